@@ -1040,6 +1040,222 @@ def gen_sess(ctx, effective):
     return out
 
 
+# ---------------------------------------------------------------- the proxy binary: main()'s flag -> configuration wiring
+# One process per command line: the real main() runs in-process in the test binary of ./proxy against a stub broker
+# (harness/overlay/proxy/zz_verif_c06_main_test.go).  The poll interval of the proxy is 5 s, so a case takes 10-15 s of
+# wall time and next to no CPU: all cases are started together at the beginning of run() and collected at its end.
+
+MAIN_TEST_ARGS = ["-test.run", "^TestVerifC06Main$"]
+MAIN_DEFAULT_PATTERN = b"snowflake.torproject.net$"
+MAIN_DEFAULT_RELAY = b"wss://snowflake.bamsoftware.com/"
+MAIN_DEADLINE = 120
+
+
+def main_inside(pat):
+    """a host name inside a (valid) pattern"""
+    m = new_matcher(pat)
+    return m[1] if m[0] else (b"01." + m[1] if m[1] and not m[1].startswith(b".") else b"relay01" + m[1])
+
+
+def gen_main(ctx):
+    """-> list of dict(relay, pattern, allow (None | '' | '=true' | '=false'), extras [str], broker_path, offers [bytes], kind)"""
+    rng, thorough = ctx.rng, ctx.tier == "thorough"
+    out = []
+
+    def offers_for(relay, pattern):
+        pat = pattern if pattern is not None else MAIN_DEFAULT_PATTERN
+        inside, outside = main_inside(pat), b"relay.evil.example"
+        first = b"ws://" + inside + rng.choice([b"/", b":8080/x"])
+        if relay is not None and relay.startswith(b"ws://") and member(new_matcher(pat), host_of(relay)) and rng.random() < 0.7:
+            first = relay            # the broker hands back the operator's own plain-WebSocket relay
+        second = rng.choice([b"wss://" + outside + b"/", b"wss://" + outside + b"/", b"ws://" + outside + b"/", b"wss://" + inside + b".evil.example/"])
+        if relay and relay != b"%zz" and not member(new_matcher(pat), host_of(relay)) and rng.random() < 0.6:
+            second = b"wss://" + relay.split(b"://", 1)[1]      # the operator's own relay host, outside the pattern: judged like any other
+        return [first, second, b"wss://" + inside + b"/"]
+
+    def case(relay, pattern, allow, kind, extras=None, offers=None, broker_path="/"):
+        out.append(dict(relay=relay, pattern=pattern, allow=allow, extras=extras or [], broker_path=broker_path,
+                        offers=offers if offers is not None else offers_for(relay, pattern), kind=kind))
+
+    relays = [None, b"wss://relay.example.net/", b"ws://127.0.0.1:9/"]
+    patterns = [None, rng.choice([b"^relay.example.net$", b"example.net$", b"$"])]
+    for relay in relays:
+        for allow in (None, ""):
+            for pattern in patterns:
+                case(relay, pattern, allow, "main-grid-relay-%s" % ("absent" if relay is None else relay.split(b":")[0].decode()))
+    # the operator's own ws:// relay inside the pattern, handed back by the broker
+    case(b"ws://snowflake.torproject.net:8080/", None, None, "main-own-ws-relay-inside-pattern")
+    case(b"ws://bridge.example.net/", b"example.net$", rng.choice([None, "=false"]), "main-own-ws-relay-inside-pattern")
+    # command lines main() must refuse (Start() returns a configuration error)
+    case(None, b"snowflake.torproject.net", None, "main-fatal", offers=[])
+    case(None, b"", "", "main-fatal", offers=[])
+    case(b"%zz", None, None, "main-fatal", offers=[])
+    # the empty relay URL from the broker: the session proceeds (the operator's relay would be dialled)
+    case(rng.choice(relays), None, None, "main-empty-relay-url", offers=[b"", b"ws://" + main_inside(MAIN_DEFAULT_PATTERN) + b"/"])
+    extra_pool = [["-capacity", "1"], ["-capacity", "3"], ["-keep-local-addresses"], ["-unsafe-logging"], ["-verbose"], ["-summary-interval", "2h"],
+                  ["-nat-retest-interval", "0s"], ["-nat-retest-interval", "12h"], ["-unsafe-logging", "-verbose"], ["-relay", ""]]
+    for _ in range(5 if not thorough else 40):
+        ex = [x for e in rng.sample(extra_pool, rng.randrange(1, 4)) for x in e]
+        relay = rng.choice(relays + [b"ws://snowflake.torproject.net/", b"wss://snowflake.torproject.net/", b"ws://relay.example.net:80/"])
+        if "-relay" in ex:
+            relay = b""
+            ex = [x for x in ex if x not in ("-relay", "")]
+        case(relay, rng.choice([None, None, b"torproject.net$", b"^snowflake.torproject.net$", b"example.net$"]),
+             rng.choice([None, None, "", "=true", "=false"]), "main-random-flags", extras=ex, broker_path=rng.choice(["/", "/", "/b/", "/deep/er/"]))
+    return out
+
+
+def main_args(c):
+    args = []
+    if c["relay"] is not None:
+        args += ["-relay", c["relay"].decode()]
+    if c["allow"] is not None:
+        args += ["-allow-non-tls-relay" + c["allow"]]
+    if c["pattern"] is not None:
+        args += ["-allowed-relay-hostname-pattern", c["pattern"].decode()]
+    return args + list(c["extras"]) + ["-stun", "stun:stun.invalid:3478"]
+
+
+def main_allow(c):
+    return c["allow"] in ("", "=true")
+
+
+def main_shown(c):
+    return "proxy " + " ".join(a if a else "''" for a in main_args(c)) + " -broker <stub>" + c["broker_path"]
+
+
+def main_start(exe, cases):
+    import subprocess
+    import tempfile
+    procs = []
+    for c in cases:
+        spec = json.dumps(dict(args=main_args(c), broker_path=c["broker_path"], offers=[o.decode() for o in c["offers"]], deadline_s=MAIN_DEADLINE))
+        so, se = tempfile.TemporaryFile(), tempfile.TemporaryFile()
+        p = subprocess.Popen([exe] + MAIN_TEST_ARGS, stdin=subprocess.DEVNULL, stdout=so, stderr=se, cwd=tempfile.gettempdir(),
+                             env=dict(os.environ, VERIF_C06_MAIN=spec))
+        procs.append((p, so, se))
+    return procs
+
+
+def main_collect(procs):
+    """-> per case: 'fatal' | 'pattern=.. path=.. res=..' | '!...'"""
+    res = []
+    t_end = time.time() + MAIN_DEADLINE + 60
+    for p, so, se in procs:
+        try:
+            p.wait(timeout=max(1, t_end - time.time()))
+        except Exception:
+            p.kill()
+            p.wait()
+        so.seek(0)
+        se.seek(0)
+        out, err = so.read().decode("utf-8", "replace"), se.read().decode("utf-8", "replace")
+        so.close()
+        se.close()
+        line = [l for l in out.split("\n") if l.startswith("@@c06main ")]
+        if line:
+            res.append(line[-1][len("@@c06main "):].strip())
+        elif p.returncode == 1 and "panic" not in err and "panic" not in out:
+            res.append("fatal")
+        else:
+            res.append("!died rc=%s %s" % (p.returncode, (err or out)[-300:].replace("\n", " ")))
+    return res
+
+
+def main_line(c, tok):
+    relay = "n" if c["relay"] is None else tok[c["relay"]]
+    pat = "n" if c["pattern"] is None else hx(c["pattern"])
+    return "%s mainrun %s %s %s %s %s" % (AREA, relay, pat, "1" if main_allow(c) else "0", hx(" ".join(c["extras"]).encode()),
+                                          ",".join(tok[o] for o in c["offers"]) or "-")
+
+
+def main_facts_needed(c, tok):
+    pat = hx(c["pattern"] if c["pattern"] is not None else MAIN_DEFAULT_PATTERN)
+    return [(pat, pat, tok[o].split(";")[3]) for o in c["offers"] if tok[o].split(";")[1] == "P"]
+
+
+def main_prop(c, tok, impl):
+    """the property on what the process did -> None or (message, key)"""
+    shown = main_shown(c)
+    pattern = c["pattern"] if c["pattern"] is not None else MAIN_DEFAULT_PATTERN
+    relay = c["relay"] if c["relay"] else MAIN_DEFAULT_RELAY
+    must_fatal = not pattern.endswith(b"$") or tok[relay].split(";")[1] == "E"
+    if impl.startswith("!"):
+        return None
+    if impl == "fatal":
+        return None if must_fatal else ("`%s`: main() ended in log.Fatal although the command line is well formed" % shown, "proxy-main-config")
+    if must_fatal:
+        return ("`%s`: main() went on to poll although %s" % (shown, "the pattern does not end in $" if not pattern.endswith(b"$") else "the -relay URL does not parse"),
+                "proxy-main-config")
+    f = fields(impl)
+    res = f.get("res", "").split(",") if f.get("res") else []
+    if len(res) != len(c["offers"]) or any(r not in ("proceed", "refuse") for r in res):
+        return ("`%s`: %d sessions answered with: %s" % (shown, len(c["offers"]), impl[:200]), "proxy-main-config")
+    allow = main_allow(c)
+    late = None
+    for o, r in zip(c["offers"], res):
+        t = tok[o].split(";")
+        if t[1] == "E":
+            ok = False
+        elif o == b"":
+            ok = True
+        else:
+            scheme = unhx(t[2])
+            ok = impl_member(hx(pattern), t[3]) and (allow or scheme == b"wss")
+        if r == "proceed" and not ok:
+            why = ("its scheme is %r and -allow-non-tls-relay was not given" % unhx(t[2]).decode() if t[1] == "P" and impl_member(hx(pattern), t[3])
+                   else "its host is outside the pattern %r" % pattern if t[1] == "P" else "it does not parse")
+            return ("`%s`: the session for the broker-supplied relay URL %r proceeds although %s" % (shown, o, why), "proxy-relay-url")
+        if r == "refuse" and ok and late is None:
+            late = ("`%s`: the session for the broker-supplied relay URL %r is refused although its host is inside the pattern %r and %s"
+                    % (shown, o, pattern, "-allow-non-tls-relay was given" if allow else "its scheme is wss"), "proxy-main-config")
+    if f.get("pattern") != hx(pattern):
+        return ("`%s`: the polls announce the relay pattern %r, the command line says %r"
+                % (shown, unhx(f["pattern"]) if f.get("pattern", "n") != "n" else None, pattern), "proxy-main-config")
+    if unhx(f.get("path", "x")) != (c["broker_path"] + "proxy").encode():
+        return ("`%s`: the polls go to %r" % (shown, unhx(f.get("path", "x"))), "proxy-main-config")
+    return late
+
+
+def main_strip(impl):
+    return " ".join(t for t in impl.split(" ") if not t.startswith("path="))
+
+
+def run_main(ctx, exe_nm, cases, procs):
+    raws = sorted({o for c in cases for o in c["offers"]} | {c["relay"] for c in cases if c["relay"] is not None} | {MAIN_DEFAULT_RELAY})
+    rc, parsed, err = vlib.run_impl(exe_nm, ["%s urlparse %s" % (AREA, hx(u)) for u in raws])
+    if rc != 0 or len(parsed) != len(raws):
+        raise RuntimeError("urlparse driver failed: " + err[-300:])
+    tok = {u: p.replace(" ", ";") for u, p in zip(raws, parsed)}
+    ensure_facts(exe_nm, [t for c in cases for t in main_facts_needed(c, tok)])
+    impl = main_collect(procs)
+    lines = [main_line(c, tok) for c in cases]
+    model = vlib.run_model(lines)
+    ndis = 0
+    for c, l, m, r in zip(cases, lines, model, impl):
+        ctx.count(l + " " + main_shown(c), kind=c["kind"])
+        if m == "!badcase":
+            raise RuntimeError("model rejected case line: " + l[:200])
+        bad = main_prop(c, tok, r)
+        rp = dict(label="proxy-main", case=l, main=dict(relay=None if c["relay"] is None else c["relay"].decode(), pattern=None if c["pattern"] is None else c["pattern"].decode(),
+                                                         allow=c["allow"], extras=c["extras"], broker_path=c["broker_path"], offers=[o.decode() for o in c["offers"]], kind=c["kind"]),
+                  impl=r[:2000], model=m)
+        if bad:
+            ctx.violation(bad[1], bad[0], rp)
+        elif main_strip(r) != m:
+            ndis += 1
+            if ndis <= 5:
+                ctx.not_shown("correspondence proxy-main: model and implementation disagree on `%s` (%s): model=%s impl=%s; "
+                              "the property predicate found no failure on it" % (main_shown(c), l[:300], m[:200], r[:300]))
+    short = [(l, m) for l, m in zip(lines, model) if len(l) < 600]
+    bad = vlib.coq_crosscheck(short[:10])
+    ctx.extra["vm_compute_crosschecked"] = ctx.extra.get("vm_compute_crosschecked", 0) + len(short[:10])
+    for i in bad:
+        ctx.not_shown("extraction cross-check: vm_compute and extracted runner differ on `%s`" % short[i][0][:300])
+    ctx.extra["proxy_main_processes"] = len(cases)
+    ctx.extra["proxy_main_sessions"] = sum(len(c["offers"]) for c in cases)
+
+
 def stage(ctx, name):
     now = time.time()
     last = ctx.extra.get("_t")
@@ -1063,6 +1279,10 @@ def run(ctx):
         "broker-supplied relay URL); every answer is compared with the model's history-free decision for that request alone"]
     ctx.trusted.append("scripted broker RoundTripper and pion client in harness/overlay/proxy/lib/zz_verif_c06_test.go; "
                        "poll/offer/answer choreography in harness/overlay/broker/zz_verif_c06_test.go")
+    ctx.trusted.append("HTTP stub broker in harness/overlay/proxy/zz_verif_c06_main_test.go (the real main() of ./proxy run in-process, one "
+                       "process per command line; a session counts as accepted when the proxy POSTs its answer before its next poll)")
+    ctx.assumptions.append("proxy main(): -broker (the stub) and -stun (an unresolvable host) are always given by the harness; NATProbeURL has no "
+                           "flag; the observation is the session decision (answer sent or not), the pattern announced in the polls, and exit by log.Fatal")
     # (i) exported namematcher API
     exe_nm = vlib.go_build("./zz_verif/namematcher")
     lines, kinds = gen_matcher(ctx)
@@ -1073,6 +1293,13 @@ def run(ctx):
     exe_br = vlib.go_test_build("./broker")
     exe_px = vlib.go_test_build("./proxy/lib")
     EXES.update(nm=exe_nm, br=exe_br, px=exe_px)
+    # the proxy binary's main(), one process per command line: started now, collected at the end (they mostly wait)
+    main_cases, main_procs = gen_main(ctx), None
+    try:
+        exe_main = vlib.go_test_build("./proxy", name="c06_main.test")
+        main_procs = main_start(exe_main, main_cases)
+    except vlib.GoBuildError as e:
+        ctx.not_shown("proxy main(): the overlay test of package main (./proxy) does not build: %s" % str(e)[-400:])
     lines, kinds = gen_poll(ctx)
     stage(ctx, "broker-proxypolls")
     ensure_facts(exe_nm, [t for l in lines for t in facts_needed(l)])
@@ -1134,6 +1361,9 @@ def run(ctx):
     # (iii'') one proxy configured through the real Start(), end to end: relay URL string -> check -> dial target
     stage(ctx, "proxy-started-session")
     run_sess(ctx, exe_px, exe_nm)
+    stage(ctx, "proxy-main")
+    if main_procs is not None:
+        run_main(ctx, exe_nm, main_cases, main_procs)
     stage(ctx, "end")
     del ctx.extra["_t"]
 
@@ -1243,6 +1473,21 @@ def replay(ctx, doc):
         if not case:
             continue
         op = case.split(" ")[1]
+        if op == "mainrun":
+            mc = v["replay"]["main"]
+            c = dict(relay=None if mc["relay"] is None else mc["relay"].encode(), pattern=None if mc["pattern"] is None else mc["pattern"].encode(),
+                     allow=mc["allow"], extras=mc["extras"], broker_path=mc["broker_path"], offers=[o.encode() for o in mc["offers"]], kind=mc["kind"])
+            exe_nm = exes.setdefault("nm", vlib.go_build("./zz_verif/namematcher"))
+            raws = sorted(set(c["offers"]) | ({c["relay"]} if c["relay"] is not None else set()) | {MAIN_DEFAULT_RELAY})
+            rc, parsed, err = vlib.run_impl(exe_nm, ["%s urlparse %s" % (AREA, hx(u)) for u in raws])
+            tok = {u: p.replace(" ", ";") for u, p in zip(raws, parsed)}
+            ensure_facts(exe_nm, main_facts_needed(c, tok))
+            r = main_collect(main_start(vlib.go_test_build("./proxy", name="c06_main.test"), [c]))[0]
+            m = vlib.run_model([main_line(c, tok)])[0]
+            p = main_prop(c, tok, r)
+            print("case: %s\n model: %s\n impl:  %s\n property: %s" % (main_shown(c), m[:300], r[:300], p[0] if p else "holds"))
+            bad += 1 if p else 0
+            continue
         if op in ("sup", "nm"):
             exe, args = exes.setdefault("nm", vlib.go_build("./zz_verif/namematcher")), ()
         elif op in ("poll", "pollseq", "gate", "bseq"):
